@@ -62,6 +62,22 @@ def run(ctx, which="C03"):
             nmodel += 1
             ctx.violation(f"model and implementation disagree: {res['model'][0][:300]}",
                           {"case": case, "model_problems": res["model"][:5]}, found_input=False)
+    # ---- jobs drawn from LARGE non-uniform blocks (more than 12 idle paths with unequal weights: the probability matrix is the
+    # Monte-Carlo estimate of REPEX_state.random_prob): the real pick() on a real REPEX_state, the statement on every job
+    big = [(m, 100 * m + r, 3) for m in ((13, 14, 15) if ctx.tier == "quick" else (13, 14, 15, 16, 18)) for r in range(1 if ctx.tier == "quick" else 4)]
+    nbig = 0
+    for bc, (tag, res) in zip(big, H.run_many(RR.big_pick_case, big, jobs=8, timeout=900)):
+        ctx.dist(f"big_block_picks:m{bc[0]}")
+        if tag != "ok":
+            ctx.violation(f"harness failure on large-block case {bc}: {str(res)[:300]}", {"big_pick": bc, "error": str(res)}, found_input=False)
+            continue
+        ctx.count(("big_pick", bc), nontrivial=res["random_prob_calls"] > 0, n=res["picks"])
+        nbig += res["picks"]
+        if res[which] and nprop < 6:
+            nprop += 1
+            ctx.violation(f"{which} statement fails on the implementation: large non-uniform block ({bc[0]} plus ensembles, seed {bc[1]}): {res[which][0][:300]}",
+                          {"big_pick": list(bc), "W": res["W"], "property_problems": res[which][:8]}, found_input=True)
+    agg["big_block_picks"] = nbig
     ctx.cov["rule"] = ("one evaluation = one recorded scheduler operation (prep_md_items or treat_output) of the real program, "
                        "accepted and reproduced by the extracted model and judged by the property oracle; a case is non-trivial when at least one job completed")
     ctx.cov["correspondence"] = {"cases": len(cases), **agg}
@@ -73,6 +89,10 @@ def run(ctx, which="C03"):
 
 
 def replay(doc):
+    if "big_pick" in doc["replay"]:
+        (tag, res), = H.run_many(RR.big_pick_case, [tuple(doc["replay"]["big_pick"])], jobs=1)
+        print(tag, {k: v for k, v in res.items() if k != "W"} if tag == "ok" else res)
+        return 1 if tag != "ok" or res["C03"] else 0
     case = doc["replay"]["case"]
     (tag, res), = H.run_many(_run, [case], jobs=1)
     print(tag, {k: v for k, v in res.items() if k != "stats"} if tag == "ok" else res)
